@@ -205,12 +205,15 @@ CHECKS = {
     ),
     "C07": dict(
         kani=[dict(crate="nexrad-decode", files=["c07.rs"], harnesses=[
-            dict(name="c07_radial_mapping", what="radial() == into_radial(); all header fields, spacing, status, timestamp; each moment wired to its own block; all 2^7 presence patterns, all finite scale/offset, 1 gate each"),
-            dict(name="c07_values_formula", bounded="gates <= 3 (8-bit words)", what="sentinels 0/1, (raw-offset)/scale, scale 0 rule; decode level == model level; all 256 raws, all finite scale/offset"),
-            dict(name="c07_values_one_per_gate_16bit", bounded="gates <= 3 (16-bit words)", what="exactly one value per gate for 16-bit moments"),
+            dict(name="c07_radial_header_mapping", what="radial() == into_radial() and every reported field (numbers, angles, spacing, one-to-one status, timestamp) for all 32 header bytes"),
+            dict(name="c07_radial_moment_wiring", what="every subset of the seven moments: each model moment built from its own block (distinct symbolic scale/offset), absent stays absent, both conversions agree"),
+            dict(name="c07_radial_moment_bytes", bounded="2 gates", what="gate bytes carried unchanged into the model radial by both conversions"),
+            dict(name="c07_values_formula_1gate", bounded="1 gate (8-bit words)", what="sentinels 0/1, (raw-offset)/scale, scale 0 rule; decode level == model level bit for bit; all 256 raws, all finite scale/offset"),
+            dict(name="c07_values_formula_2gates", bounded="2 gates (8-bit words)", tier="thorough", what="same, two gates"),
+            dict(name="c07_values_one_per_gate_16bit", bounded="2 gates (16-bit words)", what="exactly one value per gate for 16-bit moments (KNOWN FINDING on the current tree)"),
         ])],
         trusted_base=KANI_TRUST + ["IEEE-754 arithmetic as modelled by CBMC (bit-precise)"],
-        not_decided=["gate counts above 3 (bounded: the bound only limits std's map/collect unrolling)"],
+        not_decided=["gate counts above 2-3 (bounded: the bound only limits std's map/collect unrolling)"],
         explanation="Radial mapping proved over every header and every moment subset; value conversion complete in raw value, "
                     "scale and offset but bounded in gate count.",
     ),
@@ -225,8 +228,9 @@ CHECKS = {
             dict(name="drd_total_name_byte2", bounded="<=2 blocks, 80-byte buffer, one symbolic name byte", tier="thorough", what="same, name byte 2"),
             dict(name="drd_total_name_xyz", bounded="<=2 blocks, 80-byte buffer, name XYZ", what="unknown block name is an error"),
             dict(name="drd_total_name_nonutf8", bounded="<=2 blocks, 80-byte buffer, name FF FF FF", tier="thorough", what="non-UTF-8 name"),
-            dict(name="drd_total_truncated", bounded="every prefix of a 48-byte one-block message", what="truncated type-31 message is an error"),
+            dict(name="drd_total_truncated", bounded="every prefix of a 48-byte one-block message", termination="unwind 50; the unchanged decoder needs <= 48 iterations of the prefix loop and <= 2 per inner loop", what="truncated type-31 message is an error, and decoding terminates"),
             dict(name="drd_total_count_extreme", bounded="block count 65535, 40-byte input", what="huge block count with short input is an error"),
+            dict(name="drd_total_gates_short", bounded="one moment block declaring 0..=65535 gates x word size 8/16 with 4 data bytes present", termination="unwind 8", what="a moment block declaring more gate bytes than remain is an error, never a hang or a panic"),
         ])],
         trusted_base=STD_TRUST + KANI_TRUST + ["reader model (std::io)", "in-harness slice reader for the seeking decoder"],
         not_decided=["peak-memory clause: allocation sizes are functions of 8/16-bit fields (proved for the gate buffer: "
